@@ -1175,6 +1175,7 @@ func (e *Engine) checkCutsAt(st *State, fr *Frame, atReturn bool) {
 			st.subst[k] = v
 		}
 		st.subMemo = nil
+		st.memoShared = false
 		// the lemma is re-evaluated over the raw current state (no rewrite rules) and assumed conjunct by
 		// conjunct at the expression level, so that definitions are oriented afresh.  (It is equivalent to the
 		// proved form, which was the same statement with equals substituted for equals.)
